@@ -319,6 +319,7 @@ const basePrelude = `(set-logic ALL)
 (declare-fun sub (Ref Int) Ref)
 (declare-fun sub.base (Ref) Ref)
 (declare-fun sub.idx (Ref) Int)
+(declare-fun root (Ref) Ref)
 (declare-fun f64.ofint (Int) Real)
 (declare-fun f64.toint (Real) Int)
 (declare-fun f64.sub (Real Real) Real)
@@ -353,7 +354,7 @@ const basePrelude = `(set-logic ALL)
 (assert (forall ((s Str)) (! (= (byteslen (bytes.ofstr s)) (strlen s)) :pattern ((bytes.ofstr s)))))
 (assert (forall ((s Slice)) (! (=> (>= (slen s) 0) (= (byteslen (bytesOf s)) (slen s))) :pattern ((bytesOf s)))))
 (assert (forall ((s Slice) (i Int)) (! (= (sidx s i) (+ (soff s) i)) :pattern ((sidx s i)))))
-(assert (forall ((r Ref) (k Int)) (! (and (= (sub.base (sub r k)) r) (= (sub.idx (sub r k)) k) (not (= (sub r k) null)) (= (epoch (sub r k)) (epoch r))) :pattern ((sub r k)))))
+(assert (forall ((r Ref) (k Int)) (! (and (= (sub.base (sub r k)) r) (= (sub.idx (sub r k)) k) (not (= (sub r k) null)) (= (epoch (sub r k)) (epoch r)) (= (root (sub r k)) (root r))) :pattern ((sub r k)))))
 (assert (forall ((c Cid)) (! (= (cid.ofstr (cid.str c)) c) :pattern ((cid.str c)))))
 (assert (forall ((x Int) (y Int)) (! (=> (<= x y) (<= (f64.ofint x) (f64.ofint y))) :pattern ((f64.ofint x) (f64.ofint y)))))
 (assert (forall ((x Int)) (! (=> (and (<= (- 9007199254740992) x) (<= x 9007199254740992)) (= (f64.ofint x) (to_real x))) :pattern ((f64.ofint x)))))
